@@ -180,8 +180,9 @@ type DecCase struct {
 }
 
 type DecRec struct {
-	TS  int32
-	Msg ev.Hex
+	TS   int32
+	Msg  ev.Hex
+	Slow int `json:",omitempty"` // milliseconds the listener callback takes for this record
 }
 
 func runDec(c DecCase) (res ev.Result) {
@@ -208,8 +209,12 @@ func runDec(c DecCase) (res ev.Result) {
 		}
 		stop, err = e.Ins[1].Listen(func(b []byte, ts int32) {
 			mu.Lock()
+			k := len(recv)
 			recv = append(recv, got{ts, append([]byte{}, b...)})
 			mu.Unlock()
+			if k < len(c.Recs) && c.Recs[k].Slow > 0 {
+				time.Sleep(time.Duration(c.Recs[k].Slow) * time.Millisecond) // a callback that takes its time
+			}
 			if bytes.Equal(b, marker) {
 				select {
 				case seen <- struct{}{}:
@@ -281,12 +286,23 @@ func genDec(t *rapid.T) DecCase {
 			rapid.SampledFrom([]int{127, 128, 255, 256, 511, 512, 513, 1023, 1024, 1025, 2000}),
 			rapid.IntRange(1, 2000),
 		).Draw(t, "len")
+		// one record in six looks like a piece of a long sysex: F0 first, a length that is a
+		// power of two (or next to one), usually no F7 at the end
+		piece := rapid.IntRange(0, 5).Draw(t, "sysexPiece?") == 0
+		if piece {
+			l = rapid.SampledFrom([]int{1024, 1024, 1024, 512, 256, 128, 2048, 1023, 1025, 4096}).Draw(t, "pieceLen")
+		}
 		m := rapid.SliceOfN(rapid.Byte(), l, l).Draw(t, "msg")
 		// first and last byte biased to the bytes that frame MIDI messages
-		if rapid.Bool().Draw(t, "statusFirst?") {
+		if piece {
+			m[0] = 0xF0
+			if m[l-1] == 0xF7 {
+				m[l-1] = 0x01
+			}
+		} else if rapid.Bool().Draw(t, "statusFirst?") {
 			m[0] = rapid.SampledFrom([]byte{0xF0, 0xF0, 0x90, 0xF7, 0xB0, 0xFF}).Draw(t, "first")
 		}
-		if l > 1 && rapid.Bool().Draw(t, "f7Last?") {
+		if !piece && l > 1 && rapid.Bool().Draw(t, "f7Last?") {
 			m[l-1] = 0xF7
 		}
 		if len(m) == 5 && m[0] == 0xFA && m[1] == 0xFB {
@@ -296,13 +312,17 @@ func genDec(t *rapid.T) DecCase {
 			m[0] = 0x90 // keep the message outside the option filter's classes: options are all on anyway
 		}
 		ts := rapid.OneOf(rapid.Int32Range(0, 5000), rapid.Int32()).Draw(t, "ts")
-		c.Recs = append(c.Recs, DecRec{ts, m})
+		slow := 0
+		if rapid.IntRange(0, 3).Draw(t, "slowCallback?") == 0 {
+			slow = rapid.IntRange(1, 8).Draw(t, "callbackMs")
+		}
+		c.Recs = append(c.Recs, DecRec{ts, m, slow})
 	}
 	return c
 }
 
 var decoder = ev.NewCheck("C19", "driver-decoder",
-	"rapid: 1..8 records (any time stamp, messages of 1..2000 arbitrary bytes with lengths biased to 127/128, 255/256, 511..513, 1023..1025, 2000 and first/last bytes biased to F0 / F7 / channel status) printed line by line by the stand-in helper of an in-port of the process-backed driver; In.Listen with all options on; oracle: the listener is called exactly once per line, in order, with the line's time stamp and bytes (one record per line, nothing held back, glued or made up); a marker record printed last tells when everything has arrived (bounded wait of 60 s); non-trivial = >= 2 records; distinct by case hash",
+	"rapid: 1..8 records (any time stamp, messages of 1..2000 arbitrary bytes with lengths biased to 127/128, 255/256, 511..513, 1023..1025, 2000 and first/last bytes biased to F0 / F7 / channel status; one record in six shaped like a piece of a long sysex: F0 first, 128..4096 bytes with 1024 favoured, no F7 last) printed line by line by the stand-in helper of an in-port of the process-backed driver; In.Listen with all options on, the listener callback taking 1..8 ms for one record in four (so that the next line arrives while it runs); oracle: the listener is called exactly once per line, in order, with the line's time stamp and bytes (one record per line, nothing held back, glued or made up); a marker record printed last tells when everything has arrived (bounded wait of 60 s); non-trivial = >= 2 records; distinct by case hash",
 	genDec, runDec)
 
 func TestPropDriverDecoder(t *testing.T) {
